@@ -328,7 +328,7 @@ pub fn run(ctx: &Ctx) -> (Acc, String, bool) {
     let n_b = bvecs.len() as u64;
     let n_int_ex = (ints_boundary.len() * 35) as u64;
     let fixed = n_strs + n_b + n_int_ex + 1;
-    let random_total: u64 = ctx.pick(20_000, 600_000);
+    let random_total: u64 = ctx.pick(200_000, 30_000_000);
     let seed = ctx.seed;
     let acc = run_cases(ctx, fixed + random_total, |i, acc| {
         let mut cases: Vec<Case> = vec![];
